@@ -298,6 +298,59 @@ func c18Limit() error {
 			}
 		}
 	}
+	// the same for standalone expressions (parse.Expr, the route of ParseGlobals): constructs that nest
+	// and flat chains, whose tree is as deep as they are long; behind the expression, nothing or more tokens
+	type chain struct{ unit, mid, close string }
+	for _, ch := range []chain{{"1+", "1", ""}, {"(", "1", ")"}, {"[", "1", "]"}, {"- ", "1", ""}, {"1?:", "1", ""}, {"$a[", "1", "]"}, {"f(", "1", ")"}} {
+		const top = 40000
+		memo := map[int]string{}
+		outcome := func(d int) string {
+			if o, seen := memo[d]; seen {
+				return o
+			}
+			var err error
+			catch(func() { _, err = parse.Expr(strings.Repeat(ch.unit, d) + ch.mid + strings.Repeat(ch.close, d)) })
+			o := ""
+			if err != nil {
+				o = err.Error()
+			}
+			memo[d] = o
+			return o
+		}
+		var edges []int
+		var search func(lo, hi int)
+		search = func(lo, hi int) {
+			if outcome(lo) == outcome(hi) || len(edges) >= 4 {
+				return
+			}
+			if hi-lo == 1 {
+				edges = append(edges, hi)
+				return
+			}
+			mid := (lo + hi) / 2
+			search(lo, mid)
+			search(mid, hi)
+		}
+		search(1, top)
+		for _, hi := range edges {
+			for _, tail := range []string{"", " 2", " )", " 'unterminated", " $b.c", ","} {
+				for d := hi - scale(2, 4); d <= hi+scale(1, 3); d++ {
+					if d < 1 {
+						continue
+					}
+					base := settle()
+					src := strings.Repeat(ch.unit, d) + ch.mid + strings.Repeat(ch.close, d) + tail
+					if !finishes(4*watchdogLimit(), func() { catch(func() { parse.Expr(src) }) }) {
+						fmt.Printf("INFRA: a parse did not return within the watchdog limit (property C05 decides that): %d times %q as an expression\n", d, ch.unit)
+						os.Exit(2)
+					}
+					if left := settleTo(base); left > base {
+						return fmt.Errorf("%d scanner goroutine(s) still alive after parse.Expr returned: %q %d times, then %q%s, followed by %q (what the parser says about this expression changes at %d repetitions)", left-base, ch.unit, d, ch.mid, strings.Repeat(ch.close, min(d, 3)), tail, hi)
+					}
+				}
+			}
+		}
+	}
 	return nil
 }
 
